@@ -130,11 +130,23 @@ class AddrMap:
             if bounded and arr_lo is not None and last.off is not None:
                 rng = (arr_lo, arr_hi)
             else:
-                rng = None
+                # pointer arithmetic on a member's address stays inside that member (bounds: C09)
+                rng = last.rng
             return Addr(base.root, base.segs[:-1] + (Seg(ty, None, rng),))
         if last.off is None:
             return Addr(base.root, base.segs[:-1] + (Seg(ty, None, last.rng),))
-        return Addr(base.root, base.segs[:-1] + (Seg(ty, last.off + gep["coff"], None),))
+        # constant offset: remember the innermost named member the pointer was taken from (its byte
+        # extent inside the object) so that a callee writing through it at a variable offset can be
+        # bounded to that member (the callee's own accesses are bounded by C09)
+        ext = last.rng
+        cur = last.off
+        for s in gep["steps"]:
+            if s["k"] == "field":
+                cur += s["off"]
+                ext = (cur, cur + s["size"])
+            elif "const" in s:
+                cur += s["const"] * s["elsize"]
+        return Addr(base.root, base.segs[:-1] + (Seg(ty, last.off + gep["coff"], ext),))
 
     def _compute(self):
         f = self.f
@@ -167,7 +179,7 @@ class AddrMap:
             st, d = strip_struct(i["type"])
             last = a.segs[-1]
             if last.ty is None and last.off == 0 and st and d == 1:
-                return Addr(a.root, a.segs[:-1] + (Seg(cname_of(st), 0, None),))
+                return Addr(a.root, a.segs[:-1] + (Seg(cname_of(st), 0, last.rng),))
             return a
         if op == "getelementptr":
             return self._gep(self.of(i["gep"]["base"]), i["gep"])
@@ -312,9 +324,11 @@ def rebase(addr, actual):
         rng = None
         if first.off is None and first.rng and last.off is not None:
             rng = (first.rng[0] + last.off, first.rng[1] + last.off)
+        elif first.off is None and last.off is not None and last.rng:
+            rng = last.rng        # bounded by the member whose address was passed
     else:
         off = first.off + last.off
-        rng = None
+        rng = (first.rng[0] + last.off, first.rng[1] + last.off) if first.rng else None
     ty = last.ty or first.ty
     if last.ty and first.ty and last.ty != first.ty and last.off:
         ty = last.ty
